@@ -102,6 +102,7 @@ func (r *Result) Merge(o *Result) {
 type Env struct {
 	Repo     string // /repo
 	Verif    string // /verif
+	Out      string // where evidence/, replays/ and .work/ are written (default: Verif; the self-test redirects it)
 	Tier     string // quick | thorough
 	Seed     int64
 	Work     string // scratch dir under /verif/.work/<id>
@@ -132,7 +133,11 @@ func EnvFromOS(prop string) *Env {
 		}
 	}
 	e.Verbose = os.Getenv("VERIF_VERBOSE") != ""
-	e.Work = filepath.Join(e.Verif, ".work", prop)
+	e.Out = e.Verif
+	if v := os.Getenv("VERIF_OUT"); v != "" {
+		e.Out = v
+	}
+	e.Work = filepath.Join(e.Out, ".work", prop)
 	return e
 }
 
